@@ -6,8 +6,13 @@ proofs : lean/PyAbel/Props/C07.lean (generic two-tier cache machine: invariant p
          Props/C07Names.lean (cleanup masks match exactly their own method's file names; table regenerated from /repo);
          Props/C07Rbasex.lean (rbasex's in-memory transform caches as a machine over the six module globals: every call
          that returns, returns matrices made from the basis, mask and regularisation it names, after any history);
-         Props/C07Basex.lean (the same for basex's basis / forward / inverse caches)
-K      : basex sessions (bases [n, sigma] x direction x [reg, correction, dr] with numerically equal spellings, cleanups) vs
+         Props/C07Basex.lean (the same for basex's basis / forward / inverse caches);
+         Props/C07Daun.lean (the same for daun's basis and transform-matrix caches: the matrix handed out is the requested kind, of the
+         requested degree, from a basis that covers the requested size — exactly that size for cubic splines —, with the requested
+         regulariser and strength, after any history)
+K      : daun sessions (sizes x degrees x regularisers x strengths incl. numerically equal zeros x direction, cleanups) vs its machine:
+         _bs_prm, _tr, _tr_prm after every step, and the returned matrix vs a fresh process's;
+         basex sessions (bases [n, sigma] x direction x [reg, correction, dr] with numerically equal spellings, cleanups) vs
          its machine: the five globals after every step, and the returned matrix vs a fresh process's;
          rbasex sessions (calls over bases x valid-radius masks x directions x regularisations incl. ones that raise,
          cache_cleanup of each kind) on the real module vs that machine: outcome and all six globals after every step;
@@ -764,6 +769,7 @@ def run(tier):
     ck.proofs("PyAbel.Props.C07Names")
     ck.proofs("PyAbel.Props.C07Rbasex")
     ck.proofs("PyAbel.Props.C07Basex")
+    ck.proofs("PyAbel.Props.C07Daun")
     ok, log = ensure_driver()
     if ok:
         correspondence(ck, tier)
@@ -779,6 +785,8 @@ def run(tier):
     rbxmachine.run_sessions(ck, tier)              # rbasex's in-memory transform caches vs the Lean machine of C07Rbasex
     from harness import bxmachine
     bxmachine.run_sessions(ck, tier)               # basex's, vs the machine of C07Basex (globals after every call, matrices vs a fresh process)
+    from harness import daunmachine
+    daunmachine.run_sessions(ck, tier)             # daun's, vs the machine of C07Daun (basis / transform-matrix caches, crop reuse by degree)
     return ck.finish()
 
 
